@@ -15,6 +15,10 @@ ENGINES = [
      "kind_free_text": "generated event histories executed on the real scheduler.Cell under a virtual clock; reference-model oracles after every cycle; forked probe cycles"},
     {"name": "master-zk", "path": "vf/master", "serves_properties": ["C01", "C03", "C04", "C05", "C06", "C07", "C08", "C09", "C10", "C11"],
      "kind_free_text": "real Master/Loader on ZkBackend on an in-memory ZooKeeper (vf/zkfake.py); events produced with masterapi; fork-based crash cuts and restarts"},
+    {"name": "node-appcfgmgr", "path": "vf/node", "serves_properties": ["C13"], "kind_free_text": "real AppCfgMgr/configure/monitor/cleanup on a temp root, interleaving explorer, directory invariants"},
+    {"name": "node-owndb", "path": "vf/owndb", "serves_properties": ["C14"], "kind_free_text": "symlink ownership databases vs reference model, syscall failpoints, forked contention"},
+    {"name": "node-runtime-net", "path": "vf/runtime_net", "serves_properties": ["C16"], "kind_free_text": "real _run._unshare_network / _finish.finish over a kernel-state model, snapshot conservation"},
+    {"name": "zk-presence", "path": "vf/zkproto", "serves_properties": ["C17"], "kind_free_text": "two presence services on the ZooKeeper fake under a controlled scheduler"},
     {"name": "node-cache", "path": "vf/checks/c12.py", "serves_properties": ["C12"],
      "kind_free_text": "real EventMgr on a temp root + in-memory ZooKeeper; sys.monitoring LINE failpoints and syscall-boundary hooks"},
     {"name": "trace-archive", "path": "vf/checks/c18.py", "serves_properties": ["C18"],
@@ -84,4 +88,20 @@ CHECKS['C12'] = dict(engine='node-cache', category='fault_enumeration', design_r
                      note="Trusted base: in-memory ZooKeeper fake, real filesystem in a temp dir; sys.monitoring LINE events and wrappers of os.replace/os.fchmod/NamedTemporaryFile as failpoints; the directory is read from inside the hook without flushing the writer's buffers (what another process or a crash at that instant sees).",
                      text="The real EventMgr._synchronize converges arbitrary generated cache states to the placement; every statement and syscall boundary of the real write path is a point where the directory is read as a crash/reader would see it and, in a second pass, where an I/O error is injected (plus disk-full in the middle of the manifest).",
                      technique="runtime monitoring with fault injection: reader/crash view and injected I/O errors at every statement and syscall boundary of the write path")
+CHECKS['C13'] = dict(engine='node-appcfgmgr', category='exploration', design_ref='DESIGN 4 C13 / 9',
+                     note="Trusted base: real AppCfgMgr + real appcfg.configure + real monitor/cleanup actions on a temp root with a real inotify watcher; faked: runtime lookup, s6 control, subproc.resolve, runtime.finish (removes the container dir). Generations are identified by a marker in the manifest, not by the repository's naming functions.",
+                     text="Random interleavings of cache changes (same instance evicted and placed again), readiness flips, one-at-a-time event delivery, containers ending on their own, cleanups completing late, manager restarts and node starts; after every handler the listing of running/, cleanup/, apps/ is checked: one link per container, finished never restarted, unchanged running kept, deleted handed to cleanup, running == configurable cache after a synchronisation.",
+                     technique="runtime monitoring: directory-listing invariants after every handler of generated event interleavings (PYTHONHASHSEED varied)")
+CHECKS['C14'] = dict(engine='node-owndb', category='exploration', design_ref='DESIGN 4 C14 / 9',
+                     note="Trusted base: 40-line reference model entry->owner; os/glob proxies giving failpoints at listdir/stat/readlink/symlink/unlink; kernel (link/bridge/ipset) state model under the real NetworkResourceService; forked processes for contention. Known findings (TOCTOU windows of the lock-free symlink databases) are listed in known_findings.json.",
+                     text="The real VipMgr / RuleMgr / EndpointsMgr / NetworkResourceService are replayed against a reference ownership model after every operation, with other actors' operations injected between two system calls, tiny networks driven to exhaustion, service restarts and kills, and real multi-process contention whose merged history is checked for overlapping holds.",
+                     technique="runtime monitoring: reference-model replay + syscall-boundary failpoints + multi-process history checker (no double hold)")
+CHECKS['C16'] = dict(engine='node-runtime-net', category='exploration', design_ref='DESIGN 4 C16 / 9',
+                     note="Trusted base: kernel-state model for ipset/conntrack behind subproc; harness-side network daemon handing out VIPs (lowest free of a small pool); real RuleMgr/EndpointsMgr/ResourceServiceClient, real allocate_network_ports on loopback, real state.json round trip; resolver stable between start and finish.",
+                     text="For generated manifests and interleaved starts/finishes (also interrupted and repeated finishes, two containers of one instance) snapshots of rules/, endpoints/ and the IP-set model are compared: after A's finish the state is the state before minus exactly what A's start added; after all finishes it equals the initial snapshot.",
+                     technique="runtime monitoring: before/after snapshot conservation oracle over generated manifests and start/finish interleavings with injected kills")
+CHECKS['C17'] = dict(engine='zk-presence', category='exploration', design_ref='DESIGN 5 C17 / 9',
+                     note="Trusted base: in-memory ZooKeeper fake (sessions, ephemerals, kazoo's DataWatch); controlled scheduler with a yield point at every ZooKeeper operation (greenlet tasks, seeded choices); inotify loop of ResourceService replaced by a per-process FIFO. Known findings are listed in known_findings.json.",
+                     text="Two real PresenceResourceService instances (two sessions) plus auxiliary clients run create/delete requests of successive containers under a seeded scheduler that picks the next task at every ZooKeeper operation, with session expiry and crashes at any yield point; the node-table history is checked: only the owner session mutates, creates are ephemeral, foreign nodes untouched + watch, old clean-up keeps newer nodes, bounded progress.",
+                     technique="runtime monitoring: controlled-interleaving exploration at ZooKeeper-operation granularity + ownership oracle over the node-table history")
 NOT_APPLICABLE = {}
